@@ -1,6 +1,6 @@
 """C12 — bit and coefficient decompositions admit only the canonical witness.
 Plug-in for bin/check (see bin/checks.py, AGENT_BRIEF.md)."""
-import json, os, itertools
+import json, os, itertools, re, glob
 
 PROPERTY = "C12"
 
@@ -8,6 +8,48 @@ PROPERTY = "C12"
 def _lines(p):
     with open(p) as fh:
         return [l.rstrip("\n") for l in fh]
+
+
+# Call sites of decompose_to_bits in the production sources and the width expression each passes.
+# Every one of them is single-limb (n = BF::bits()); the multi-limb path of the builder has no
+# caller. A new call site, or a changed width expression, must be looked at (and modelled).
+CALLSITE_INVENTORY = {
+    ("recursion/src/challenger/circuit.rs", "bf_bits"),
+    ("recursion/src/pcs/whir/verifier.rs", "BF::bits()"),
+}
+
+
+def _repo_root():
+    """the tree the harness is built against (harness/Cargo.toml path dependency of p3-circuit)"""
+    here = os.path.dirname(os.path.dirname(os.path.abspath(__file__)))
+    try:
+        m = re.search(r'p3-circuit\s*=\s*\{\s*path\s*=\s*"([^"]+)/circuit"', open(os.path.join(here, "harness", "Cargo.toml")).read())
+        return m.group(1) if m else "/repo"
+    except OSError:
+        return "/repo"
+
+
+REPO = _repo_root()
+
+
+def callsite_inventory():
+    """static oracle: (file, width expression) of every decompose_to_bits call outside the builder"""
+    found, detail = set(), []
+    for path in sorted(glob.glob(f"{REPO}/**/src/**/*.rs", recursive=True)):
+        if "/target/" in path or path.endswith("circuit/src/builder/circuit_builder.rs"):
+            continue
+        txt = open(path, errors="replace").read()
+        for m in re.finditer(r"decompose_to_bits(?:::<[^>]*>)?\s*\(([^;]*?)\)\s*(?:\?|;|\.)", txt, re.S):
+            args = [a.strip() for a in m.group(1).split(",") if a.strip()]
+            if not args or "fn " in txt[max(0, m.start() - 12):m.start()]:
+                continue
+            rel = os.path.relpath(path, REPO)
+            found.add((rel, args[-1]))
+            detail.append({"file": rel, "line": txt.count("\n", 0, m.start()) + 1, "width": args[-1]})
+    # bf_bits in challenger/circuit.rs must be BF::bits()
+    ch = open(f"{REPO}/recursion/src/challenger/circuit.rs", errors="replace").read()
+    bf_ok = re.search(r"let\s+bf_bits\s*=\s*BF::bits\(\)\s*;", ch) is not None
+    return found, detail, bf_ok
 
 
 def run(ctx):
@@ -25,6 +67,14 @@ def run(ctx):
                 dict(value=20000, run=40000, prove=15000, chal=150, corpus=None)]
     driver = ctx["driver_dir"] + "/p3r_driver_c12"
     violations, hist, samples = [], {}, []
+    inv_found, inv_detail, bf_ok = callsite_inventory() if not ctx.get("replay") else (CALLSITE_INVENTORY, [], True)
+    if inv_found != CALLSITE_INVENTORY or not bf_ok:
+        violations.append({"class": "callsite-inventory-changed",
+                           "what": "decompose_to_bits call sites / width expressions differ from the inventory the single-limb "
+                                   f"instance theorems are stated for: found={sorted(inv_found)} expected={sorted(CALLSITE_INVENTORY)} "
+                                   f"bf_bits_is_BF_bits={bf_ok}",
+                           "replay": {"found": sorted(map(list, inv_found)), "expected": sorted(map(list, CALLSITE_INVENTORY))},
+                           "no_input": True})
     evaluations = distinct = nontrivial = disagreements = compared = proofs = 0
     gadget_cost = None
     for n, r in enumerate(runs):
@@ -68,19 +118,27 @@ def run(ctx):
                    "alu/npo/npoc, consumer shape, x, contents of the D hinted coefficient slots), generated from VERIF_SEED: honest, "
                    "bits of x+p / x+2p (must be rejected since the canonicity repair), one flipped bit, recomposition-preserving non-boolean, random boolean; moved mass, tail junk, "
                    "head change, random; plus hint-output and recomposition-value cases, and in-situ cases on the real CircuitChallenger::sample_bits "
-                   "(BabyBear D=4, Poseidon2 w16; observed values ground until sample < 2^31-p, hint replaced by bits of sample+p). Each case is executed on the real builder + "
+                   "(BabyBear D=4, Poseidon2 w16; observed values ground until sample < 2^31-p, hint replaced by bits of sample+p); plus the generalised cases: "
+                   "(extension instance, lowering, consumer, x, D slot contents) for every extension the prover dispatches on (D = 5 quintic trinomial, D = 5/8 binomial) with the "
+                   "additional deviation 'junk that wraps around the modulus', and multi-limb bit decompositions over extension-field circuits (instance, n, x, n extension-valued slot "
+                   "contents: honest, bits of v_i+p in a full limb, exchanged limbs, flipped, non-boolean, non-base bit carrying the mass of the next limb, random). Each case is executed on the real builder + "
                    "runner with the hint executor replaced, 'prove' cases also through prove_all_tables + verify_all_tables; every "
                    "result line is compared with the Lean model. distinct_nontrivial = distinct case lines whose slot contents are "
                    "not the honest hint output",
            "samples": samples[:6], "input_distribution": hist,
            "traces_validated_against_impl": compared, "disagreements_checked": disagreements,
            "known_not_reproduced": [],
+           "decompose_to_bits_call_sites": inv_detail,
+           "extension_instances": "coefficients: bb4 kb4 gl2 (binomial, recompose tables + ALU), kb5q (KoalaBear quintic trinomial X^5 = 1 - X^2: "
+                                  "recompose tables + ALU, real prove+verify), bb5 bb8 kb8 gl5 (binomial, ALU chain only: RecomposePreprocessor has no "
+                                  "case for these extensions); multi-limb bits: all eight instances, n from 1 to BF::bits()*D and n > F::bits() (refused)",
            "decompose_to_bits_cost_(alu_rows,witness_slots)": gadget_cost}
     return violations, cov
 
 
 CHECK = {
-    "lean_modules": ["P3R.Props.C12", "P3R.Witness.C12"],
+    "lean_modules": ["P3R.Props.C12", "P3R.Witness.C12", "P3R.Props.C12Gen", "P3R.Props.C12Multi", "P3R.Props.C12Basis",
+                     "P3R.Witness.C12Gen"],
     "lean_exes": ["p3r_driver_c12"],
     "theorems": ["P3R.C12.accept_iff", "P3R.C12.bits_unique", "P3R.C12.bits_not_unique", "P3R.C12.unique_iff",
                  "P3R.C12.lowbit_changes", "P3R.C12.babybear_31_not_unique", "P3R.C12.koalabear_31_not_unique",
@@ -94,16 +152,39 @@ CHECK = {
                  "P3R.C12.Witness.forged_rejected", "P3R.C12.Witness.forged_run_conflict",
                  "P3R.C12.Witness.honest_accepted", "P3R.C12.Witness.forged_index_differs",
                  "P3R.C12.Witness.full_statement_bits_false_before_repair", "P3R.C12.Witness.full_statement_coeffs_alu_false",
-                 "P3R.C12.Witness.junk_accepted_npo", "P3R.C12.Witness.junk_rejected_npoc_read"],
+                 "P3R.C12.Witness.junk_accepted_npo", "P3R.C12.Witness.junk_rejected_npoc_read",
+                 # any degree / any monic modulus (Props/C12Gen)
+                 "P3R.C12.mulBasisG_binomial", "P3R.C12.coefAcceptG_binomial", "P3R.C12.mulBasisG_unit", "P3R.C12.recomposeG_embed",
+                 "P3R.C12.coeff_vectors_unique", "P3R.C12.aluG_base_unique", "P3R.C12.aluG_canon_accept", "P3R.C12.aluG_accept_iff",
+                 "P3R.C12.aluG_any_tail_accepted", "P3R.C12.aluG_not_unique", "P3R.C12.npoG_accept_iff", "P3R.C12.npoG_not_unique",
+                 "P3R.C12.npocG_bound_unique", "P3R.C12.npocG_unbound_eq_npo",
+                 # multi-limb bits (Props/C12Multi)
+                 "P3R.C12.reconMulti_eq_sum", "P3R.C12.multi_accept_iff", "P3R.C12.multi_accept_iff_canon", "P3R.C12.multi_canonical",
+                 "P3R.C12.single_limb_of_multi", "P3R.C12.one_limb_of_multi", "P3R.C12.babybear_multi_canonical",
+                 "P3R.C12.koalabear_multi_canonical", "P3R.C12.goldilocks_multi_canonical",
+                 # basis independence for genuine extensions (Props/C12Basis)
+                 "P3R.C12.basis_coeffs_unique", "P3R.C12.powerBasis_coeffs_unique", "P3R.C12.adjoinRoot_coeffs_unique",
+                 "P3R.C12.primeIndep_of_linearIndependent", "P3R.C12.primeIndep_powerBasis", "P3R.C12.primeIndep_adjoinRoot",
+                 "P3R.C12.multi_canonical_adjoinRoot",
+                 # witnesses (Witness/C12Gen)
+                 "P3R.C12.WitnessGen.moved5_accepted_alu", "P3R.C12.WitnessGen.wrap5_accepted_alu",
+                 "P3R.C12.WitnessGen.wrap5_rejected_binomial", "P3R.C12.WitnessGen.full_statement_coeffs_alu_false_quintic",
+                 "P3R.C12.WitnessGen.junk5_accepted_npo", "P3R.C12.WitnessGen.junk5_accepted_npoc_unread",
+                 "P3R.C12.WitnessGen.junk5_rejected_npoc_read", "P3R.C12.WitnessGen.honest9_accepted",
+                 "P3R.C12.WitnessGen.plusP9_rejected", "P3R.C12.WitnessGen.swapped9_rejected",
+                 "P3R.C12.WitnessGen.nonbase9_run_ok", "P3R.C12.WitnessGen.nonbase9_rejected",
+                 "P3R.C12.WitnessGen.primeIndep_poly"],
     "run": run,
     "trusted_base": [
         "executable prime-field instances PF p of the driver (validated against p3-field by the hint / recon / erecon value cases)",
+        "executable extension EV p D red of the driver (multi-limb bit cases run the gadget model over extension-valued slots; validated against p3-field's BinomialExtensionField / QuinticTrinomialExtensionField by the gerecon / mrecon / mbits lines)",
+        "multi-limb bits: the extension is a commutative domain of characteristic p whose basis elements are independent over the prime field (PrimeIndep; proved for the power basis of F_p[X]/(g), g monic: primeIndep_adjoinRoot; that p3's extension types are such quotients is not proved)",
         "batch-STARK + LogUp assumed ideal: 'accepted by verify_all_tables' is read as 'every table row relation holds and the WitnessChecks bus balances'",
         "the model treats the relation imposed on the hinted slots only; which other rows read those slots is a case parameter (consumer shape), not derived from an arbitrary circuit",
     ],
     "assumptions": [
-        "bits: single-limb decompositions only (n <= BF::bits(), the only widths used by sample_bits / check_pow_witness / WHIR); the multi-limb chunking of reconstruct_index_from_bits for n > BF::bits() is not modelled",
-        "coefficients: binomial extensions X^D = W (BabyBear D=4, KoalaBear D=4, Goldilocks D=2); the quintic trinomial extension is not modelled",
+        "bits: every width n <= F::bits() (all limbs) is modelled (bitsAcceptMulti) and reduced to the single-limb relation chunk by chunk (multi_accept_iff); the production call sites are all single-limb, n = BF::bits() (static inventory oracle CALLSITE_INVENTORY)",
+        "coefficients: every degree D >= 1 and every monic modulus X^D = sum r_k X^k (coefAcceptG); tested on binomial D=2/4/5/8 and the KoalaBear quintic trinomial; the recompose tables are tested where the repo supports them (bb4, kb4, gl2, kb5q)",
         "observation point is the one the property names: hint executors emitting non-canonical decompositions; hand-forged Traces (e.g. recompose rows whose cells differ from the runner's) are outside this check (C04/C06)",
     ],
 }
@@ -118,8 +199,8 @@ MANIFEST_ENTRY = {
     "technique": "Lean 4 theorems characterising every accepted decomposition witness (model of the circuit relation on the hinted slots) + differential correspondence of run / prove+verify verdicts with deviating hint executors on the real code",
     "level_claimed": {
         "category": "proof",
-        "text": "Bits (after fixes/C12-1.diff): accept_fixed_iff / bits_canonical_fixed: for w = BF::bits() and every n <= w the repaired relation (boolean checks, recomposition identity, comparison of a full-width limb with the bits of p) accepts exactly the canonical bits; call-site instances for BabyBear/KoalaBear/Goldilocks. Without the comparison (accept_iff, bits_not_unique, unique_iff) the witnesses are the expansions of v+k*p, which is what the repair removes. Coefficients: base-field coefficient vectors unique (alu_base_unique); ALU chain accepts moved mass for every D>=2 (alu_not_unique); recompose table binds only the cells (npo_accept_iff, npo_not_unique); recompose/coeff unique iff its tuple has non-zero multiplicity (npoc_bound_unique, npoc_unbound_eq_npo). Model tied to the code by line-exact comparison of runner outcome and prove+verify verdict on generated honest and deviating hint outputs.",
+        "text": "All extension degrees and moduli, all bit widths. Coefficients for every D>=1 and every monic modulus (binomial of any degree, KoalaBear quintic trinomial X^5=1-X^2): base-field coefficient vectors are unique (coeff_vectors_unique, aluG_base_unique; basis_coeffs_unique / adjoinRoot_coeffs_unique for the power basis of K[X]/(g)); the ALU chain accepts exactly the affine family c_0 = x - sum_{i>=1} X^i c_i with c_1..c_{D-1} arbitrary extension elements (aluG_accept_iff, aluG_any_tail_accepted, aluG_not_unique: F16 at every D); recompose / recompose-coeff relations are modulus-independent (npoG_*, npocG_*: F17, F18 at every D). Bits for every width n <= BF::bits()*D over an extension-field circuit: multi_accept_iff reduces the multi-limb relation to the single-limb one chunk by chunk, multi_canonical gives the full statement (only the canonical chunks are accepted), instances BabyBear/KoalaBear/Goldilocks for every D. Single limb (after fixes/C12-1.diff): accept_fixed_iff / bits_canonical_fixed: for w = BF::bits() and every n <= w the repaired relation (boolean checks, recomposition identity, comparison of a full-width limb with the bits of p) accepts exactly the canonical bits; call-site instances for BabyBear/KoalaBear/Goldilocks. Without the comparison (accept_iff, bits_not_unique, unique_iff) the witnesses are the expansions of v+k*p, which is what the repair removes. Coefficients: base-field coefficient vectors unique (alu_base_unique); ALU chain accepts moved mass for every D>=2 (alu_not_unique); recompose table binds only the cells (npo_accept_iff, npo_not_unique); recompose/coeff unique iff its tuple has non-zero multiplicity (npoc_bound_unique, npoc_unbound_eq_npo). Model tied to the code by line-exact comparison of runner outcome and prove+verify verdict on generated honest and deviating hint outputs.",
         "design_ref": "4/C12",
     },
-    "level_note": "Lean kernel + 3 standard axioms; model hand-written (correspondence-tested, bb/kb/gl, D in {1,2,4}); STARK/LogUp assumed ideal; multi-limb bit decompositions and quintic extension not modelled; bits: full statement proved for the repaired gadget (F8 fixed, its witnesses are regression cases that must be rejected); coefficients: full statement false (known findings F16, F17, F18)",
+    "level_note": "Lean kernel + 3 standard axioms; model hand-written (correspondence-tested: bb/kb/gl, binomial D in {2,4,5,8}, KoalaBear quintic trinomial D=5, multi-limb bit widths 1..BF::bits()*D; recompose tables only where RecomposePreprocessor supports the extension: bb4, kb4, gl2, kb5q); STARK/LogUp assumed ideal; p3's extension types are assumed to be domains with prime-independent power basis (proved for F_p[X]/(g), not for the Rust types); bits: full statement proved for the repaired gadget (F8 fixed, its witnesses are regression cases that must be rejected); coefficients: full statement false (known findings F16, F17, F18)",
 }
